@@ -2,6 +2,17 @@
 """collects confirmed sub-agent mutants from /tmp/wt into /verif/seeded/<id>/ (patch.diff, demo.py, meta.json)"""
 import glob, json, os, re, shutil, sys
 ROOT = os.path.dirname(os.path.dirname(os.path.abspath(__file__)))
+# changes that the check as it stood when the change arrived did NOT catch, and what was added (DESIGN 10.6)
+STRENGTHENED = {
+    "C04-m1": "persistfit cases (fit through the real _fit tail, then to_json/from_json)", "C07-m2": "billing-agg cases in C07",
+    "C08-m2": "fall-35 calendar", "C11-m2": "singlerev cases (reversed stored documents)", "C13-m2": "carry variant of the routing cases",
+    "C16-m2": "gate case in C16", "C20-m2": "tz-aware DST catalogue",
+    "C01-m2": "split layouts (weekday/weekend, season) for every settings profile in the API round trip",
+    "C02-m1": "series/* cases (from_series with Series/DataFrame, conventional/other labels, other timezone)",
+    "C02-m2": "accessor/billing_df case", "C05-m1": "history/* cases (4 predict calls on one model object)",
+    "C05-m2": "dataclass/daily/elec case (hourly electricity feed through DailyReportingData)", "C06-m2": "inf cell state in part (a)",
+    "C10-m2": "temperature NaN states in frame/negative", "C19-m1": "zones east of UTC in the aggregation cases",
+}
 rows = []
 for diff in sorted(glob.glob("/tmp/wt/C*.mut*.diff")):
     m = re.match(r"/tmp/wt/(C\d+)\.mut(\d+)\.diff", diff)
@@ -32,6 +43,7 @@ for diff in sorted(glob.glob("/tmp/wt/C*.mut*.diff")):
                 description=desc, needs_to_manifest=desc,
                 confirmed=dict(demo_on_original="exit 0", demo_on_mutant="exit 1", baseline_suite="208/208 stable tests pass (missing=0)",
                                how="tools/verify_mutant_a.sh in a scratch worktree under /tmp/wt; check run by tools/verify_mutant_b.sh with the patch applied to /repo and reverted afterwards"),
+                caught=("after strengthening: + " + STRENGTHENED[sid]) if sid in STRENGTHENED else "by the check as built",
                 checks=checks, detected=any(v["exit"] == 1 and v["violation_lines"] > 0 for v in checks.values()))
     json.dump(meta, open(os.path.join(d, "meta.json"), "w"), indent=1)
     rows.append((sid, P, {c: (v["exit"], v["violation_lines"]) for c, v in checks.items()}, meta["detected"]))
